@@ -27,6 +27,7 @@ class MI:
         self.concrete = smgen.get(d, 'context') is not None
         self.dynamic = any(it['k'] == 'struct' and it['name'] == 'Dynamic' + self.name for it in skel.get('items', []))
         self.payload = {e: smgen.event_payload(d, e) for e in self.events}
+        self.wide = len(self.leaves) > 40      # very wide machines get a few long directed scripts instead of the generic families
         self._under = {}
         self._index(self.forest)
         self.edges = {}      # (leaf, event) -> (target leaf, hooks dict)
@@ -173,8 +174,46 @@ def path_ops(mi, leaf, dyn, plc):
 
 # ---------------------------------------------------------------- script families
 
+
+def wide_scripts(mi, rnd):
+    """a machine with more than 40 leaves: the whole chain once (every slot looked at after every step), the last state's own
+    event, refusals at both ends, writes to the first, the 64th and the last slot, conversions at the far end"""
+    if not mi.events:
+        return []
+    ev0 = mi.events[0]
+    n = len(mi.leaves)
+    out = []
+    for dyn in ([True, False] if mi.dynamic else [False]):
+        st, d2 = start_ops(mi, rnd, dyn)
+        plc = PL()
+        ops = list(st)
+        ops.append(call_op(d2, mi.events[-1], plc.next(mi, mi.events[-1])))          # refused at the start (or not: the model says)
+        for k in range(n + 1):
+            if k in (0, 1, 63, 64, n - 1) and k < len(mi.specs):
+                x = mi.specs[min(k, len(mi.specs) - 1)][0]
+                ops.append(('set' if d2 else 'tmut', x, 7 + k))
+                ops.append(('mut', x, 1))
+            ops.append(call_op(d2, ev0, plc.next(mi, ev0)))
+        for ev in mi.events[1:]:
+            ops.append(call_op(d2, ev, plc.next(mi, ev)))
+        ops.append(('drop',))
+        out.append(ops)
+    if mi.dynamic:
+        plc = PL()
+        ops = [('dnew', 3)] + [call_op(True, ev0, plc.next(mi, ev0)) for _ in range(n - 1)]
+        last = mi.leaves[-1]
+        ops += [('into', mi.leaves[0]), ('into', last), ('tmut', last, 5), ('intodyn',), ('mut', last, 2)]
+        for ev in reversed(mi.events):
+            ops.append(call_op(True, ev, plc.next(mi, ev)))
+        ops.append(('drop',))
+        out.append(ops)
+    return out
+
+
 def fam_walk(mi, rnd, tier):
     """every (state, event) pair from a BFS path, then random walks; default oracles"""
+    if mi.wide:
+        return wide_scripts(mi, rnd)
     out = []
     for dyn in ([True, False] if mi.dynamic else [False]):
         for leaf in mi.leaves:
@@ -199,6 +238,8 @@ def fam_walk(mi, rnd, tier):
 
 def fam_guards(mi, rnd, tier):
     """all truth assignments to the conditions of an edge"""
+    if mi.wide:
+        return wide_scripts(mi, rnd) if 'fam_guards' in ('fam_data', 'fam_conv') else []
     if not mi.events:
         return []
     out = []
@@ -249,6 +290,8 @@ def rand_answer(rnd, kind, p_block=0.25):
 
 def fam_refuse(mi, rnd, tier):
     """histories with data modifications and refusals at every position"""
+    if mi.wide:
+        return wide_scripts(mi, rnd) if 'fam_refuse' in ('fam_data', 'fam_conv') else []
     if not mi.events:
         return []
     out = []
@@ -314,6 +357,8 @@ def fam_refuse(mi, rnd, tier):
 
 def fam_around(mi, rnd, tier):
     """abort at every around position, every kind, both stages"""
+    if mi.wide:
+        return wide_scripts(mi, rnd) if 'fam_around' in ('fam_data', 'fam_conv') else []
     if not mi.events:
         return []
     out = []
@@ -338,10 +383,18 @@ def fam_around(mi, rnd, tier):
 
 def fam_data(mi, rnd, tier):
     """set / mutate / read / transition sequences, typed and dynamic, with conversions"""
+    if mi.wide:
+        return wide_scripts(mi, rnd) if 'fam_data' in ('fam_data', 'fam_conv') else []
     out = []
     if not mi.specs:
         return out
     # the accessor matrix: from every reachable leaf, every setter / mutable accessor / read, dynamic and typed
+    def specs_at(leaf):
+        # machines with very many data states: the leaf's own slot, the first and last ones and a sample of the others
+        if len(mi.specs) <= 24:
+            return mi.specs
+        keep = [sp for sp in mi.specs if sp[0] == leaf] + mi.specs[:2] + mi.specs[-2:] + rnd.sample(mi.specs, 4)
+        return list(dict.fromkeys(keep))
     for leaf in mi.leaves:
         for dyn0 in ([True, False] if mi.dynamic else [False]):
             plc = PL()
@@ -350,12 +403,13 @@ def fam_data(mi, rnd, tier):
             if po is None:
                 continue
             ops = st + po
-            for (x, _) in mi.specs:
+            here = specs_at(leaf)
+            for (x, _) in here:
                 ops.append(('set' if d2 else 'tmut', x, rnd.randint(1, 99)))
                 ops.append(('mut', x, rnd.randint(1, 99)))
             if mi.dynamic and d2:
                 ops.append(('into', leaf))
-                for (x, _) in mi.specs:
+                for (x, _) in here:
                     ops.append(('tmut', x, 3))
                 ops.append(('intodyn',))
             for ev in mi.events[:2]:
@@ -396,6 +450,8 @@ def fam_data(mi, rnd, tier):
 def fam_pair(mi, rnd, tier):
     """the same configuration, event and hook behaviour through handle() and through the typed method.
     returns scripts in (dynamic, typed) pairs: out[2k], out[2k+1]"""
+    if mi.wide:
+        return wide_scripts(mi, rnd) if 'fam_pair' in ('fam_data', 'fam_conv') else []
     if not mi.events:
         return []
     out = []
@@ -430,6 +486,8 @@ def fam_pair(mi, rnd, tier):
 
 
 def fam_conv(mi, rnd, tier):
+    if mi.wide:
+        return wide_scripts(mi, rnd) if 'fam_conv' in ('fam_data', 'fam_conv') else []
     out = []
     if not mi.dynamic:
         return out
@@ -439,8 +497,8 @@ def fam_conv(mi, rnd, tier):
         if po is None:
             continue
         ops = [('dnew', rnd.randint(1, 9))] + po
-        for (x, _) in mi.specs:      # make every live slot (leaf and superstate data) differ from its default
-            ops.append(('set', x, rnd.randint(1, 99)))
+        for (x, _) in (mi.specs if len(mi.specs) <= 24 else [sp for sp in mi.specs if sp[0] == leaf] + mi.specs[:2] + mi.specs[-2:]):
+            ops.append(('set', x, rnd.randint(1, 99)))     # make every live slot (leaf and superstate data) differ from its default
         order = list(mi.leaves)
         rnd.shuffle(order)
         for s in order:
@@ -471,6 +529,8 @@ def fam_conv(mi, rnd, tier):
 
 def fam_async(mi, rnd, tier):
     """random walks with random suspension counts per hook (async machines)"""
+    if mi.wide:
+        return wide_scripts(mi, rnd) if 'fam_async' in ('fam_data', 'fam_conv') else []
     if not mi.events:
         return []
     out = []
@@ -499,6 +559,8 @@ def fam_async(mi, rnd, tier):
 
 def fam_abandon(mi, rnd, tier):
     """a hook panics / the future is dropped at a suspension point, then every public operation"""
+    if mi.wide:
+        return wide_scripts(mi, rnd) if 'fam_abandon' in ('fam_data', 'fam_conv') else []
     if not mi.events:
         return []
     out = []
@@ -893,11 +955,17 @@ def fixtures():
         d = [('name', 'M'), ('initial', 'G1')] + ([('context', 'Ctx')] if concrete else []) + ([('async', True)] if is_async else []) + \
             [('dynamic', True), ('states', big_forest), ('events', big_events)]
         out.append(d)
-    # more than 128 (state, event) edges: eighteen leaves under one superstate, eight events from the superstate, one from a leaf
+    # more than 256 (state, event) edges: eighteen leaves under one superstate, fifteen events from the superstate, one from a leaf
     many = ['N%d' % i for i in range(18)]
     out.append([('name', 'M'), ('initial', 'N0'), ('dynamic', True),
                 ('states', [('super', 'All_', None, [('leaf', x, 'D2' if x == 'N3' else None) for x in many])]),
-                ('events', [_ev('v%d' % k, _tr(['All_'], many[(3 * k + 1) % 18])) for k in range(8)] + [_ev('only0', _tr(['N0'], 'N17'))])])
+                ('events', [_ev('v%d' % k, _tr(['All_'], many[(3 * k + 1) % 18])) for k in range(15)] + [_ev('only0', _tr(['N0'], 'N17'))])])
+    # more than 64 leaves, each with its own data slot (the initial one too): a chain, a 65-source list, one event from the last
+    wide = ['W%d' % i for i in range(66)]
+    out.append([('name', 'M'), ('initial', 'W0'), ('dynamic', True),
+                ('states', [('leaf', x, 'D%d' % (i % 4)) for i, x in enumerate(wide)]),
+                ('events', [('step', [('transition', [('from', [wide[i]]), ('to', wide[(i + 1) % 66])]) for i in range(66)]),
+                            _ev('home', _tr(wide[1:], 'W0')), _ev('only_last', _tr(['W65'], 'W1'))])])
     # states called like the Ruby DSL's keywords (capitalised as states are): sources, targets, superstate
     out.append([('name', 'M'), ('initial', 'Idle'), ('dynamic', True),
                 ('states', [('leaf', 'Idle', None), ('leaf', 'Any', 'D0'), ('super', 'All', None, [('leaf', 'Same', None), ('leaf', 'Different', 'D1')]), ('leaf', 'Done', None)]),
